@@ -85,6 +85,9 @@ def cases(tier, seed):
             if n in (9, 60) and (spec not in ('separated', 'close') or nullpat not in ('none', 'fourth', 'scattered')):
                 continue
         out.append(dict(kind='pair', n=n, spec=spec, mass=massl, basis=basis, null=nullpat, num=num, sparse=sparse, sort=sort, seed=seed))
+        if n == 12 and spec == 'separated' and massl == 'spd' and basis == 'generic' and nullpat in ('none', 'fourth'):
+            # the default silent=False (messages go to the log): results must be the same quantities
+            out.append(dict(kind='pair', n=n, spec=spec, mass=massl, basis=basis, null=nullpat, num=num, sparse=sparse, sort=sort, loud=1, seed=seed))
     for struct, sparse, num, mscale in itertools.product(['plate', 'cpanel', 'plate_reduced', 'assembly', 'bay'], [1, 0], [2, 5], [1.0, 1.0e-9]):
         out.append(dict(kind='struct', struct=struct, sparse=sparse, num=num, mscale=mscale, seed=seed))
     # Panel.freq (second implementation): full product of its own switches
@@ -157,7 +160,7 @@ def check_pair(case):
     fails = []
     ctx = dict(case=case)
     try:
-        vals, vecs = freq(K, M, silent=True, sparse_solver=bool(case['sparse']), sort=bool(case['sort']), num_eigvalues=case['num'])
+        vals, vecs = freq(K, M, silent=not case.get('loud'), sparse_solver=bool(case['sparse']), sort=bool(case['sort']), num_eigvalues=case['num'])
     except Exception as e:
         return dict(fails=[fail('freq raised', sig=None, case=case, error=repr(e)[:300])], nontrivial=1)
     if abs(K - Kc).max() != 0 or abs(M - Mc).max() != 0:
@@ -284,7 +287,8 @@ def check_pfreq(case):
         raise AssertionError('harness: pre-load is not sub-critical')
     ex = np.sqrt(w2)
     try:
-        p.freq(atype=case['atype'], silent=True, sparse_solver=bool(case['sparse']), sort=bool(case['sort']), reduced_dof=bool(case['reduced']))
+        p.freq(atype=case['atype'], silent=not (case['num'] == 6 and case['geom'] == 'regular'), sparse_solver=bool(case['sparse']),
+               sort=bool(case['sort']), reduced_dof=bool(case['reduced']))
     except Exception as e:
         return dict(fails=[fail('Panel.freq raised', sig=None, case=case, error=repr(e)[:300])], nontrivial=1)
     vals, vecs = np.asarray(p.eigvals), np.asarray(p.eigvecs)
